@@ -8,7 +8,8 @@ R3 joining terms                   : create_equation_from_terms does not store i
 R4 RHS assembly                    : strips one leading '+' only; empty renders as a zero literal.
 R5 sign parsing (thorough)         : abstract evaluation of the Term constructor over prefix classes {+,-,none} x
                                      {no bracket, bracket with inner +,-,none} gives Constant = product of the signs and
-                                     the stored text without the signs and the one bracket pair."""
+                                     the stored text without the signs and the one bracket pair.
+R8 simple terms                    : a three-token text is accepted as a simple term only under `operator in ('*', '/')`."""
 import ast
 
 from .. import cfg as cfgmod
@@ -339,6 +340,39 @@ def run(prog, check):
     for n_, ok_, why_ in tstores:
         check.ob('C12.R7', '%s::term-text-verbatim(%s)' % (tinit.key, unparse(n_.value)), ok_, '%s:%d' % (tinit.module.rel, n_.lineno), why_,
                  "a quotient 'W/P', a product 'b*a': the value of the stored text must be the value of the text passed in")
+    # ---- R8: only a product or a quotient of two factors is taken for a simple term ------------------------------------------
+    # a simple term is rendered as <coefficient>*<text> and its sign is pulled out in front: for a three-token text that is only
+    # value-preserving when the middle token is '*' or '/'.  The store of the text under the three-token test must be control
+    # dependent on the operator being one of those (other spellings of the acceptance test are not judged).
+    from ..cfg import atomic_facts as _af8
+    tflat = flatten(prog, tinit)
+    g8 = cfgmod.build(tflat)
+    for nd in g8.stmt_nodes():
+        if not (nd.kind == 'stmt' and isinstance(nd.ast, ast.Assign) and len(nd.ast.targets) == 1 and isinstance(nd.ast.targets[0], ast.Attribute)
+                and nd.ast.targets[0].attr == 'Term' and isinstance(nd.ast.targets[0].value, ast.Name) and nd.ast.targets[0].value.id == 'self'):
+            continue
+        facts = [(v_, e_) for t_, o_ in g8.conditions_at(nd) for _x, v_, e_ in _af8(t_, o_)]
+        three = [e_ for v_, e_ in facts if v_ and isinstance(e_, ast.Compare) and len(e_.ops) == 1 and isinstance(e_.ops[0], ast.Eq) and
+                 isinstance(e_.left, ast.Call) and call_name(e_.left) == 'len' and isinstance(e_.comparators[0], ast.Constant) and
+                 e_.comparators[0].value == 3]
+        if not three:
+            continue
+
+        def mult_only(v_, e_):
+            if not (v_ and isinstance(e_, ast.Compare) and len(e_.ops) == 1):
+                return False
+            r_ = e_.comparators[0]
+            if isinstance(e_.ops[0], ast.In) and isinstance(r_, (ast.Tuple, ast.List, ast.Set)):
+                return bool(r_.elts) and all(isinstance(x_, ast.Constant) and x_.value in ('*', '/') for x_ in r_.elts)
+            if isinstance(e_.ops[0], ast.Eq) and isinstance(r_, ast.Constant):
+                return r_.value in ('*', '/')
+            return False
+        ok8 = any(mult_only(v_, e_) for v_, e_ in facts)
+        check.ob('C12.R8', '%s::three-token-term-is-product-or-quotient' % tinit.key, ok8, '%s:%d' % (tinit.module.rel, nd.line),
+                 "a three-token text is taken for a simple term only when its operator is '*' or '/'" if ok8 else
+                 "a three-token text is stored as a simple term without the operator being known to be '*' or '/': a term like x//y or x%y "
+                 "then has its sign pulled out of the brackets, which changes its value",
+                 "Equation('v', rhs='-(x//y)') renders -x//y")
     check.floor('C12.R7', 3)
     check.floor('C12.R1', 3)
     check.floor('C12.R2', 5)
